@@ -70,6 +70,8 @@ func Normalize(p *Program) {
 			})
 			// range over an integer (after the block rewriting, which may have produced new blocks)
 			n.rangeOverInt(f)
+			n.countDown(f)
+			n.ringDrain(f)
 		}
 	}
 }
@@ -442,6 +444,209 @@ func (n *normalizer) rangeOverInt(f *ast.File) {
 		case *ast.CommClause:
 			replace(x.Body)
 		}
+		return true
+	})
+}
+
+// countDown: `for r := N; r > 0; r--` whose body does not mention r runs exactly as often as
+// `for r := 0; r < N; r++` (N an integer expression without calls, not assigned in the body).
+func (n *normalizer) countDown(f *ast.File) {
+	info := n.info()
+	ast.Inspect(f, func(nd ast.Node) bool {
+		fs, ok := nd.(*ast.ForStmt)
+		if !ok || fs.Init == nil || fs.Cond == nil || fs.Post == nil {
+			return true
+		}
+		init, ok := fs.Init.(*ast.AssignStmt)
+		if !ok || init.Tok != token.DEFINE || len(init.Lhs) != 1 || len(init.Rhs) != 1 {
+			return true
+		}
+		v, ok := init.Lhs[0].(*ast.Ident)
+		if !ok {
+			return true
+		}
+		obj := info.Defs[v]
+		post, ok := fs.Post.(*ast.IncDecStmt)
+		if !ok || post.Tok != token.DEC {
+			return true
+		}
+		if pid, ok := post.X.(*ast.Ident); !ok || info.Uses[pid] != obj {
+			return true
+		}
+		cond, ok := fs.Cond.(*ast.BinaryExpr)
+		if !ok {
+			return true
+		}
+		isV := func(e ast.Expr) bool { id, ok := e.(*ast.Ident); return ok && info.Uses[id] == obj }
+		isConst := func(e ast.Expr, k int64) bool {
+			tv, ok := info.Types[e]
+			if !ok || tv.Value == nil {
+				return false
+			}
+			c, exact := constant.Int64Val(tv.Value)
+			return exact && c == k
+		}
+		down := (cond.Op == token.GTR && isV(cond.X) && isConst(cond.Y, 0)) || (cond.Op == token.GEQ && isV(cond.X) && isConst(cond.Y, 1)) ||
+			(cond.Op == token.LSS && isConst(cond.X, 0) && isV(cond.Y)) || (cond.Op == token.NEQ && false)
+		if !down {
+			return true
+		}
+		bound := init.Rhs[0]
+		t := info.TypeOf(bound)
+		if bt, ok := t.Underlying().(*types.Basic); !ok || bt.Info()&types.IsInteger == 0 {
+			return true
+		}
+		pure := true
+		mentioned := map[types.Object]bool{}
+		ast.Inspect(bound, func(m ast.Node) bool {
+			switch y := m.(type) {
+			case *ast.CallExpr:
+				if tv, ok := info.Types[y.Fun]; !ok || !tv.IsType() {
+					pure = false
+				}
+			case *ast.Ident:
+				if o := info.Uses[y]; o != nil {
+					mentioned[o] = true
+				}
+			}
+			return pure
+		})
+		if !pure {
+			return true
+		}
+		used := false
+		ast.Inspect(fs.Body, func(m ast.Node) bool {
+			switch y := m.(type) {
+			case *ast.Ident:
+				if info.Uses[y] == obj {
+					used = true
+				}
+			case *ast.AssignStmt:
+				for _, l := range y.Lhs {
+					if id, ok := l.(*ast.Ident); ok && mentioned[info.ObjectOf(id)] {
+						used = true
+					}
+				}
+			case *ast.IncDecStmt:
+				if id, ok := y.X.(*ast.Ident); ok && mentioned[info.ObjectOf(id)] {
+					used = true
+				}
+			}
+			return !used
+		})
+		if used {
+			return true
+		}
+		use := func() *ast.Ident {
+			id := &ast.Ident{NamePos: fs.For, Name: v.Name}
+			info.Uses[id] = obj
+			info.Types[id] = types.TypeAndValue{Type: t}
+			return id
+		}
+		zero := &ast.BasicLit{ValuePos: fs.For, Kind: token.INT, Value: "0"}
+		info.Types[zero] = types.TypeAndValue{Type: t, Value: constant.MakeInt64(0)}
+		init.Rhs[0] = zero
+		nc := &ast.BinaryExpr{X: use(), OpPos: fs.For, Op: token.LSS, Y: bound}
+		n.setBool(nc)
+		fs.Cond = nc
+		fs.Post = &ast.IncDecStmt{X: use(), TokPos: fs.For, Tok: token.INC}
+		return true
+	})
+}
+
+// ringDrain: `for { v, ok := r.Get(); if !ok { break }; BODY }` on a helper.Ring, where ok is not
+// used in BODY, is `for !r.IsEmpty() { v, _ := r.Get(); BODY }`: Get reports false exactly when
+// the ring is empty.
+func (n *normalizer) ringDrain(f *ast.File) {
+	info := n.info()
+	ast.Inspect(f, func(nd ast.Node) bool {
+		fs, ok := nd.(*ast.ForStmt)
+		if !ok || fs.Init != nil || fs.Cond != nil || fs.Post != nil || len(fs.Body.List) < 2 {
+			return true
+		}
+		as, ok := fs.Body.List[0].(*ast.AssignStmt)
+		if !ok || as.Tok != token.DEFINE || len(as.Lhs) != 2 || len(as.Rhs) != 1 {
+			return true
+		}
+		call, ok := as.Rhs[0].(*ast.CallExpr)
+		if !ok || len(call.Args) != 0 {
+			return true
+		}
+		sel, ok := call.Fun.(*ast.SelectorExpr)
+		if !ok || sel.Sel.Name != "Get" {
+			return true
+		}
+		rt := info.TypeOf(sel.X)
+		if rt == nil {
+			return true
+		}
+		named := rt
+		if p, isPtr := rt.(*types.Pointer); isPtr {
+			named = p.Elem()
+		}
+		nt, isNamed := named.(*types.Named)
+		if !isNamed || nt.Obj().Name() != "Ring" || nt.Obj().Pkg() == nil || !strings.HasSuffix(nt.Obj().Pkg().Path(), "/helper") {
+			return true
+		}
+		okID, isID := as.Lhs[1].(*ast.Ident)
+		if !isID || okID.Name == "_" {
+			return true
+		}
+		okObj := info.Defs[okID]
+		// second statement: if !ok { break }   (the normaliser has already split if-inits)
+		is, isIf := fs.Body.List[1].(*ast.IfStmt)
+		if !isIf || is.Else != nil || is.Init != nil || len(is.Body.List) != 1 {
+			return true
+		}
+		br, isBr := is.Body.List[0].(*ast.BranchStmt)
+		if !isBr || br.Tok != token.BREAK || br.Label != nil {
+			return true
+		}
+		u, isNot := is.Cond.(*ast.UnaryExpr)
+		if !isNot || u.Op != token.NOT {
+			return true
+		}
+		if cid, ok := u.X.(*ast.Ident); !ok || info.Uses[cid] != okObj {
+			return true
+		}
+		used := false
+		for _, s := range fs.Body.List[2:] {
+			ast.Inspect(s, func(m ast.Node) bool {
+				if id, ok := m.(*ast.Ident); ok && info.Uses[id] == okObj {
+					used = true
+				}
+				return !used
+			})
+		}
+		if used {
+			return true
+		}
+		// the receiver expression must be a plain variable (evaluated twice now)
+		if _, plain := sel.X.(*ast.Ident); !plain {
+			return true
+		}
+		obj, _, _ := types.LookupFieldOrMethod(rt, true, n.pk.Types, "IsEmpty")
+		m, isFn := obj.(*types.Func)
+		if !isFn {
+			return true
+		}
+		recv := &ast.Ident{NamePos: fs.For, Name: sel.X.(*ast.Ident).Name}
+		info.Uses[recv] = info.Uses[sel.X.(*ast.Ident)]
+		info.Types[recv] = info.Types[sel.X]
+		name := &ast.Ident{NamePos: fs.For, Name: "IsEmpty"}
+		info.Uses[name] = m
+		msel := &ast.SelectorExpr{X: recv, Sel: name}
+		info.Types[msel] = types.TypeAndValue{Type: m.Type()}
+		if s0, ok := info.Selections[sel]; ok {
+			_ = s0
+		}
+		ic := &ast.CallExpr{Fun: msel, Lparen: fs.For, Rparen: fs.For}
+		n.setBool(ic)
+		cond := &ast.UnaryExpr{OpPos: fs.For, Op: token.NOT, X: ic}
+		n.setBool(cond)
+		fs.Cond = cond
+		as.Lhs[1] = &ast.Ident{NamePos: okID.Pos(), Name: "_"}
+		fs.Body.List = append([]ast.Stmt{as}, fs.Body.List[2:]...)
 		return true
 	})
 }
